@@ -16,6 +16,7 @@ from vf.ref import iso_ref
 
 PROPERTY = 'C20'
 LEVEL = 'exploration'
+EXTRA_AXES = ('nodateutil',)     # date cells are parsed by python-dateutil if present, else by fromisoformat
 
 CODECS = ['latin_1', 'cp500', 'cp037']
 META = ['', ',', '"', '""', ';', ' x', 'x ', "a,b\"c", '[!]^|', 'CAF\xc9', '\xd1\xfc\xa3']
@@ -219,6 +220,8 @@ def convert(case, csv_text, workdir):
 
 
 def check_case(case, acc, workdir=None):
+    if case.get('kind') == 'cfgseq':
+        return check_cfgseq(case, acc)
     own = workdir is None and case['entry'] != 'func'
     if own:
         workdir = tempfile.mkdtemp(prefix='vf_c20_')
@@ -253,6 +256,64 @@ def check_case(case, acc, workdir=None):
     finally:
         if own:
             shutil.rmtree(workdir, ignore_errors=True)
+
+
+def check_cfgseq(case, acc):
+    """ONE configuration object, customised in place between conversions made by the same process: which elements
+    carry PDS data changes (DE48 becomes plain text, later a PDS carrier again; DE62 loses / regains the processor).
+    Every CSV -> IPM -> CSV run is judged against the configuration as it is at that time."""
+    import copy
+    from cardutil.cli import mci_csv_to_ipm, mci_ipm_to_csv
+    from cardutil.config import config as package_config
+    acc.case(('cfgseq', case['enc'], case['blocked'], tuple(case['steps'])), nontrivial=True, outcome='cfgseq')
+    cfg = copy.deepcopy(package_config)
+    plain48 = {'field_name': 'Additional data', 'field_type': 'LLLVAR', 'field_length': 0}
+    orig48, orig62 = copy.deepcopy(cfg['bit_config']['48']), copy.deepcopy(cfg['bit_config']['62'])
+    enc, blocked = case['enc'], case['blocked']
+    for si, step in enumerate(case['steps']):
+        if step == 'plain48':
+            cfg['bit_config']['48'] = dict(plain48)
+        elif step == 'pds48':
+            cfg['bit_config']['48'] = copy.deepcopy(orig48)
+        elif step == 'plain62':
+            cfg['bit_config']['62'] = {k: v for k, v in orig62.items() if k != 'field_processor'}
+        elif step == 'pds62':
+            cfg['bit_config']['62'] = copy.deepcopy(orig62)
+        else:
+            is48 = cfg['bit_config']['48'].get('field_processor') != 'PDS'
+            cols = ['MTI', 'DE2', 'DE4', 'PDS0023', 'PDS0158'] + (['DE48'] if is48 else [])
+            rows = []
+            for r in range(3):
+                row = {'MTI': '1240', 'DE2': '51112222333344%02d' % (si * 3 + r), 'DE4': str(1500 + r + si),
+                       'PDS0023': ['POI', 'NA ', 'CT6'][r], 'PDS0158': 'MCC, "A" %d' % (si + r)}
+                if is48:
+                    row['DE48'] = 'free text, "quoted" %d' % r
+                rows.append(row)
+            buf = io.StringIO()
+            w = csv.DictWriter(buf, fieldnames=cols, lineterminator='\n')
+            w.writeheader()
+            w.writerows(rows)
+            try:
+                ipm = io.BytesIO()
+                mci_csv_to_ipm.mci_csv_to_ipm(in_csv=io.StringIO(buf.getvalue()), out_ipm=ipm, config=cfg,
+                                              out_encoding=enc, no1014blocking=not blocked)
+                out = io.StringIO()
+                mci_ipm_to_csv.mci_ipm_to_csv(in_ipm=io.BytesIO(ipm.getvalue()), out_csv=out, config=cfg,
+                                              in_encoding=enc, no1014blocking=not blocked)
+            except Exception as ex:
+                acc.viol('c20.cfgseq.exception', case, 'step %d: %r' % (si + 1, ex), 'a CSV file')
+                return
+            got = list(csv.DictReader(io.StringIO(out.getvalue())))
+            if len(got) != len(rows):
+                acc.viol('c20.cfgseq.row_count', case, 'step %d: %d rows' % (si + 1, len(got)), '%d rows' % len(rows))
+                return
+            for i, (want, g) in enumerate(zip(rows, got)):
+                for col in cols:
+                    if g.get(col) != want[col]:
+                        acc.viol('c20.cfgseq.value', case, 'step %d row %d %s=%r' % (si + 1, i + 1, col, g.get(col)),
+                                 '%s=%r' % (col, want[col]), 'the configuration object was customised in place between '
+                                 'the conversions: %s' % (case['steps'][:si + 1],))
+                        return
 
 
 def enumerate_cases(tier, seed):
@@ -302,6 +363,13 @@ def enumerate_cases(tier, seed):
         for enc, blocked in ((('latin_1', True),) if n % 7 else (('latin_1', True), ('cp500', True), ('cp037', False))):
             cases.append({'sweep': n, 'enc': enc, 'blocked': blocked, 'entry': 'func' if n % 50 else 'cli',
                           'seed': seed})
+    for steps in (['run', 'plain48', 'run', 'pds48', 'run'], ['plain48', 'run', 'pds48', 'run', 'plain48', 'run'],
+                  ['run', 'plain62', 'run', 'plain48', 'run', 'pds62', 'run', 'pds48', 'run'],
+                  ['run', 'run', 'plain48', 'run', 'run']):
+        for enc in CODECS:
+            for blocked in (False, True):
+                cases.append({'kind': 'cfgseq', 'steps': steps, 'enc': enc, 'blocked': blocked, 'entry': 'func',
+                              'seed': seed})
     # files beyond 1 MiB (1200 rows of ~1.2 kB)
     if core.AXIS == '':
         add(['DE2', 'DE31', 'DE63'], 1200, ['plain', 1], 0, [('cp500', True, 'cli'), ('latin_1', False, 'argv'),
